@@ -238,7 +238,7 @@ fn gen_idx(rng: &mut Rng, out: &mut Vec<String>) {
     }
     let q = if rng.chance(1, 5) { 1 + rng.below(qmax) } else { 1 + rng.below(qmax.min(4)) };
     let mut text = some_text(rng, &alpha, 60);
-    if !n.is_power_of_two() && rng.chance(3, 4) {
+    if !n.is_power_of_two() && rng.chance(1, 2) {
         tame(rng, &alpha, q, &mut text);
     }
     let mc = match rng.below(8) {
@@ -267,7 +267,7 @@ fn gen_idx(rng: &mut Rng, out: &mut Vec<String>) {
             }
             2..=4 => {
                 let mut p = pattern_for(rng, &alpha, q, &text);
-                if !n.is_power_of_two() && rng.chance(3, 4) {
+                if !n.is_power_of_two() && rng.chance(1, 2) {
                     tame(rng, &alpha, q, &mut p);
                 }
                 let minc = match rng.below(6) {
@@ -280,7 +280,7 @@ fn gen_idx(rng: &mut Rng, out: &mut Vec<String>) {
             }
             _ => {
                 let mut p = pattern_for(rng, &alpha, q, &text);
-                if !n.is_power_of_two() && rng.chance(3, 4) {
+                if !n.is_power_of_two() && rng.chance(1, 2) {
                     tame(rng, &alpha, q, &mut p);
                 }
                 qs.push(format!("e:{}", hex(&p)));
